@@ -120,6 +120,9 @@ CALLEES = {
 }
 
 IGNORED_ATOMS = ("tracing", "fmt::", "Debug")
+# comparison / conversion operators of crate types are how a quantity is tested, not a quantity
+OPERATOR_SUFFIXES = ("::eq", "::ne", "::cmp", "::partial_cmp", "::lt", "::le", "::gt", "::ge", "::clone", "::deref",
+                     "::deref_mut", "::borrow", "::as_ref", "::into", "::from")
 
 
 def _target_of_call(t):
@@ -147,7 +150,7 @@ def _atoms(F, switch_bb, du):
             n = x[1]
             if n.startswith("incremental") or n.startswith("<incremental"):
                 sp = short_path(n)
-                if not any(k in sp for k in IGNORED_ATOMS):
+                if not any(k in sp for k in IGNORED_ATOMS) and not strip_generics(n).endswith(OPERATOR_SUFFIXES):
                     out.add("call:" + sp)
         elif x[0] == "field":
             for nm in x[2]:
